@@ -2,6 +2,8 @@
 
 package tengo
 
+import "github.com/d5/tengo/v2/parser"
+
 // Verification hooks are compiled out unless the build tag "verif" is set.
 const verifOn = false
 
@@ -12,3 +14,7 @@ var (
 	verifGate     func(site string)
 	verifNoDCE    bool
 )
+
+func verifOptSnapshot(c *Compiler) ([]byte, map[int]parser.Pos) { return nil, nil }
+
+func verifOptReport(c *Compiler, node parser.Node, in []byte, inMap map[int]parser.Pos) {}
